@@ -560,7 +560,7 @@ func poolConcSection(c *vlib.Ctx) {
 	c.Section("pool-conc", true, func() {
 		np := runtime.GOMAXPROCS(0)
 		cfgs := concConfigs(np, race)
-		perRun := c.N(800000, 16000000) // acquisitions per (type, configuration), over all goroutines
+		perRun := c.N(480000, 16000000) // acquisitions per (type, configuration), over all goroutines
 		if race {
 			perRun = c.N(20000, 400000)
 		}
